@@ -94,6 +94,8 @@ def main(tier):
                 P.outcome(unk.GetValue, u)
                 ev("Scalar.GetValue(v)", lambda: s.GetValue(v), obj=False, idx=[2])
                 ev("Scalar.CreateCopy(unit=v)", lambda: s.CreateCopy(unit=v), idx=[2])
+                # the rarely used form naming the category as well: the amount is still re-expressed in v
+                ev("Scalar.CreateCopy(unit=v, category=c)", lambda: s.CreateCopy(unit=v, category=cat), idx=[2])
                 holder = type("Holder", (), {})()
                 holder.s = s
                 ev("ChangeScalars(owner, s=(None, v))", lambda: (ChangeScalars(holder, s=(None, v)), holder.s)[1], idx=[2])
@@ -106,6 +108,7 @@ def main(tier):
                     a = Array(cat, cont, u)
                     ev("Array[%s].GetValues(v)" % kind, lambda: a.GetValues(v), obj=False, src_kind=kind)
                     ev("Array[%s].CreateCopy(unit=v)" % kind, lambda: a.CreateCopy(unit=v), src_kind=kind)
+                    ev("Array[%s].CreateCopy(unit=v, category=c)" % kind, lambda: a.CreateCopy(unit=v, category=cat), src_kind=kind)
                 # a history: the container a conversion returned is changed by the caller, the same conversion is asked again
                 for kind in ("list", "ndarray"):
                     a2 = Array(cat, {"list": list(VALS), "ndarray": numpy.array(VALS)}[kind], u)
